@@ -36,10 +36,11 @@ type HlsWatch struct {
 	Rule     string
 	Checks   int
 	hasVideo map[string]bool // stream dir -> current publisher has video
+	live     map[string]bool // stream dir -> a publisher is live (between NewIncarnation and EndIncarnation)
 }
 
 func WatchHls(k *sim.Kernel, conf LalConf) *HlsWatch {
-	w := &HlsWatch{k: k, conf: conf, dirs: map[string]*hlsDirState{}, hasVideo: map[string]bool{}}
+	w := &HlsWatch{k: k, conf: conf, dirs: map[string]*hlsDirState{}, hasVideo: map[string]bool{}, live: map[string]bool{}}
 	prev := k.FS.OnOp
 	k.FS.OnOp = func(op *sim.FsOp) {
 		if prev != nil {
@@ -65,7 +66,11 @@ func (w *HlsWatch) NewIncarnation(dir string, hasVideo bool) {
 	st.versions = nil
 	st.hasSeq = false
 	w.hasVideo[dir] = hasVideo
+	w.live[dir] = true
 }
+
+// EndIncarnation: the publisher is about to leave (or the server to die); from here on the directory may be cleaned up.
+func (w *HlsWatch) EndIncarnation(dir string) { w.live[dir] = false }
 
 func (w *HlsWatch) fail(rule, format string, a ...interface{}) {
 	if w.Problem == "" {
@@ -148,7 +153,12 @@ func (w *HlsWatch) onOp(op *sim.FsOp) {
 		st.created = append(st.created, op.Path)
 	}
 	if op.Kind == "removeall" {
-		// the delayed directory clean-up: legitimate only when no stream is live there (checked by the scenario)
+		// the delayed directory clean-up: legitimate only when no stream is live there
+		for dir, live := range w.live {
+			if live && (dir == op.Path || dir == op.Path+"/" || strings.HasPrefix(dir, op.Path+"/")) {
+				w.fail("C10.live-stream-wiped", "fs op #%d removes %s although a publisher is live on that stream: its playlist and every listed segment are gone", op.Seq, op.Path)
+			}
+		}
 		st.versions = nil
 		return
 	}
@@ -368,6 +378,7 @@ func execHls(k *sim.Kernel, pl HlsPlan) {
 		switch op.Kind {
 		case "pub":
 			if pub != nil && !pub.Closed && pub.LeftStep < 0 {
+				watch.EndIncarnation(dir)
 				pub.Leave(false)
 				k.Settle()
 			}
@@ -403,6 +414,7 @@ func execHls(k *sim.Kernel, pl HlsPlan) {
 			k.Advance(time.Duration(op.Ms) * time.Millisecond)
 		case "stop":
 			if pub != nil && pub.LeftStep < 0 {
+				watch.EndIncarnation(dir)
 				pub.Leave(op.Reset)
 				k.Settle()
 				k.Advance(100 * time.Millisecond)
@@ -412,6 +424,7 @@ func execHls(k *sim.Kernel, pl HlsPlan) {
 				}
 			}
 		case "crash":
+			watch.EndIncarnation(dir)
 			k.Crash()
 			crashOp = k.FS.OpsLen()
 			pub = nil
